@@ -105,7 +105,14 @@ def main():
         ],
         "checks": checks,
         "not_applicable": na,
-        "notes": "Verdict rule and known-findings policy: DESIGN.md sections 1 and 5. exit 2 = machinery failure.",
+        "notes": ("Verdict rule and known-findings policy: DESIGN.md sections 1 and 5. exit 2 = machinery failure (TLC crash, "
+                  "node-count mismatch, a violation in the intended-design model, or a vacuous run: a situation the property is "
+                  "about never occurred - Props.Triggers / pipeline.REQUIRED). Besides the per-property checks: `./check conform` "
+                  "(Spec B vs the real conductor step by step, lifecycle tables cell by cell; must report divergences=0), "
+                  "`./check selftest` (corrupted traces are rejected with the expected clause, a mutated specification diverges), "
+                  "`./seedsweep.sh` (every kept seeded change against the current checks, on scratch worktrees). The quick tier "
+                  "of C01-C04, C07, C09, C10, C18, C19 also validates traces recorded from the repository's own test suite "
+                  "(harness/testrec.py, spec/TestTrace.tla); no hook in /repo is needed."),
     }
     with open(os.path.join(ROOT, "MANIFEST.json"), "w") as f:
         json.dump(m, f, indent=1)
